@@ -17,6 +17,7 @@ from fractions import Fraction as Fr
 import numpy as np
 
 import common as C
+import gen_emp as G
 
 INF = float("inf")
 TOL = Fr(1, 10 ** 12)
@@ -120,6 +121,7 @@ def run(seed, tier, replay=None):
         return [(sz, rng.randrange(2 ** 32)) for sz in sizes(rng)]
 
     Qs, Ns, Es, oracle_jobs = [], [], [], []
+    replay_muts = None
     if replay is None:
         for _ in range(n_set):
             Qs.append((gen_quad(rng), with_sizes()))
@@ -143,7 +145,8 @@ def run(seed, tier, replay=None):
         elif vin.get("cls") == "Empirical":
             Es.append((([C.unhex(v) for v in vin["ys"]], None if vin["ws"] is None else [C.unhex(v) for v in vin["ws"]]),
                        [(sz, vin["generator_seed"])]))
-        elif vin.get("cls") in ("q", "n", "e"):
+            replay_muts = list(vin.get("caller_modified_its_arrays_in_place") or [])
+        elif vin.get("cls") in ("q", "n", "e", "ea"):
             oracle_jobs.append((vin["cls"], ast.literal_eval(vin["params"].replace("inf", "1e999")), vin["N"], vin["generator_seed"], vin.get("draws", "array")))
 
     def check_shape(cls, inp, size, x):
@@ -225,10 +228,26 @@ def run(seed, tier, replay=None):
                 rep.case(("n-empty", a, b, c, o, convex, repr(size)))
 
     # ------------------------------------------------------------------ Empirical
+    # Axis "the caller's arrays" (own generator): about half of the empirical settings are built from float64 ndarrays that the CALLER keeps
+    # and modifies in place (`gen_emp.caller_mutation`: sort / reverse / negate / refill with the next sample / permute, zero or renormalise
+    # the weights) straight after construction and again before every sample() call.  The model, the atom set and the oracle work on the
+    # lists the arrays were made from: sample() draws from the sample given at construction, the one the instance's cdf describes.
+    rng_m = C.rng_for("C13/caller-arrays", seed)
     for (ys, ws), szs in Es:
+        from_arrays = (rng_m.random() < 0.5) if replay is None else bool(replay_muts)
+        muts, todo = [], list(replay_muts or [])
         with warnings.catch_warnings():
             warnings.simplefilter("ignore")
-            d = ED(ys, ws=ws)
+            if from_arrays:
+                ys_arr, ws_arr = np.array(ys, dtype=float), None if ws is None else np.array(ws, dtype=float)
+                d = ED(ys_arr, ws=ws_arr)
+                rep.count("empirical built from the caller's ndarrays, modified in place afterwards")
+            else:
+                d = ED(ys, ws=ws)
+        if from_arrays:
+            ws_model = ws                       # the kept copy
+        else:
+            ws_model = d.ws
         weighted = d.ws is not None            # the constructor turns explicit equal weights into None
         rep.count("empirical weighted" if weighted else "empirical unweighted")
         if len(set(ys)) < len(ys):
@@ -241,27 +260,43 @@ def run(seed, tier, replay=None):
             h = clone(g)
             inp = dict(cls="Empirical", ys=[C.fhex(v) for v in ys], ws=None if ws is None else [C.fhex(v) for v in ws],
                        size=size, generator_seed=gs)
-            x = d.sample(size, generator=g)
+            if from_arrays:
+                if replay is not None:
+                    while todo:                 # a replay has the one sample() call that failed: everything the caller did before it comes first
+                        muts.append(G.apply_statement(todo.pop(0), ys_arr, ws_arr))
+                else:
+                    muts.append(G.caller_mutation(rng_m, ys_arr, ws_arr))
+                inp.update(caller_modified_its_arrays_in_place=list(muts),
+                           sequence="ys = np.array(ys); ws = None if ws is None else np.array(ws); d = EmpiricalDistribution(ys, ws=ws); <the statements "
+                                    "above, earlier sample() calls in between>; d.sample(size, generator=np.random.default_rng(generator_seed))")
+            try:
+                x = d.sample(size, generator=g)
+            except Exception as e:  # noqa: BLE001  (the distribution was valid when it was constructed)
+                rep.violate(what="EmpiricalDistribution.sample raised on a validly constructed distribution"
+                                 + (" (the caller modified the arrays it had passed to the constructor in place afterwards)" if from_arrays else ""),
+                            error=repr(e), input=inp, call="EmpiricalDistribution.sample")
+                continue
             if not check_shape("EmpiricalDistribution", inp, size, x):
                 continue
             xs = np.ravel(x)
             bad = [float(v) for v in xs if float(v) not in atoms_pos]
             if bad:
-                rep.violate(what="EmpiricalDistribution.sample returned a value that is not an atom of positive weight",
-                            input=inp, observed=bad[:3], call="EmpiricalDistribution.sample")
+                rep.violate(what="EmpiricalDistribution.sample returned a value that is not an atom of positive weight"
+                                 + (" of the sample given at construction (the caller modified its arrays in place afterwards)" if from_arrays else ""),
+                            input=inp, observed=bad[:3], expected=sorted(atoms_pos)[:12], call="EmpiricalDistribution.sample")
             if weighted:
                 u = np.ravel(h.random(size if size is not None else ()))
                 if len(u):
-                    reqs.append(("rng.choice", f"{C.flist(ys)} {C.flist(d.ws)} {C.flist(u)}"))
-                    meta.append(("w", inp, xs, (ys, ws)))
+                    reqs.append(("rng.choice", f"{C.flist(ys)} {C.flist(ws_model)} {C.flist(u)}"))
+                    meta.append(("w", inp, xs, (ys, ws, list(muts)) if from_arrays else (ys, ws)))
             else:
                 idx = np.ravel(h.integers(0, len(ys), size=size))
                 if len(idx):
                     reqs.append(("rng.index", f"{C.flist(ys)} {C.ilist(idx)}"))
-                    meta.append(("u", inp, xs, (ys, ws)))
+                    meta.append(("u", inp, xs, (ys, ws, list(muts)) if from_arrays else (ys, ws)))
             if not same_state(g, h):
                 rep.disagree(op="empirical.sample", note="generator not advanced as by choice(ys, p=ws, size)", input=inp)
-                suspects.append(("e", (ys, ws)))
+                suspects.append(("ea", (ys, ws, list(muts))) if from_arrays else ("e", (ys, ws)))
             if not len(xs):
                 rep.case(("e-empty", tuple(ys), None if ws is None else tuple(ws), repr(size)))
 
@@ -320,7 +355,7 @@ def run(seed, tier, replay=None):
                 if not ok:
                     rep.disagree(op=f"model {kind}", note="sample is not the observation the exact model picks",
                                  input=inp, index=i, impl=float(xv), model=tok)
-                    suspects.append(("e", params))
+                    suspects.append(("ea" if len(params) == 3 else "e", params))
 
     # ------------------------------------------------------------------ Spec oracle (the property's own DKW test)
     def oracle(kind, params, n_draws, oseed, mode="array"):
@@ -340,6 +375,15 @@ def run(seed, tier, replay=None):
                     acc = 2.5e-5
                 else:
                     acc = 0.83 * math.sqrt(o / w) if c == 1 else 0.4 * c * o / w
+            elif kind == "ea":
+                # built from the caller's ndarrays, which the caller then modifies in place (the recorded statements); the draws are compared
+                # with the instance's own cdf, as the property prescribes, at the observations given at construction
+                ys, ws, stmts = params
+                ys_arr, ws_arr = np.array(ys, dtype=float), None if ws is None else np.array(ws, dtype=float)
+                d = ED(ys_arr, ws=ws_arr)
+                for st in stmts:
+                    G.apply_statement(st, ys_arr, ws_arr)
+                acc = 1e-12
             else:
                 ys, ws = params
                 d = ED(ys, ws=ws)
@@ -363,11 +407,11 @@ def run(seed, tier, replay=None):
                 dist = float(max(np.max(i / n_draws - F), np.max(F - (i - 1) / n_draws)))
                 pm = None
             else:
-                vals = np.unique(np.concatenate([xs, np.ravel(d.ys) if kind == "e" else xs]))
+                vals = np.unique(np.concatenate([xs, np.ravel(d.ys) if kind == "e" else np.array(params[0], dtype=float) if kind == "ea" else xs]))
                 Fn = np.searchsorted(xs, vals, side="right") / n_draws
                 dist = float(np.max(np.abs(Fn - d.cdf(vals))))
                 pm = None
-                if kind == "e":
+                if kind in ("e", "ea"):
                     fq = (np.searchsorted(xs, vals, side="right") - np.searchsorted(xs, vals, side="left")) / n_draws
                     pm = float(np.max(np.abs(fq - d.pmf(vals))))
         return dist, pm, eps, acc
@@ -376,7 +420,15 @@ def run(seed, tier, replay=None):
         oseed = rng.randrange(2 ** 32) if oseed is None else oseed
         if mode == "scalar":
             n_draws = min(n_draws, 20000)
-        dist, pm, eps, acc = oracle(kind, params, n_draws, oseed, mode)
+        try:
+            dist, pm, eps, acc = oracle(kind, params, n_draws, oseed, mode)
+        except Exception as e:  # noqa: BLE001
+            if kind != "ea":
+                raise
+            rep.violate(what="EmpiricalDistribution.sample raised on a validly constructed distribution (the caller modified the arrays it had passed "
+                             "to the constructor in place afterwards)", error=repr(e),
+                        input=dict(cls=kind, params=repr(params), N=n_draws, generator_seed=oseed, reason=why, draws=mode), call="EmpiricalDistribution.sample")
+            return False
         rep.case(("oracle", kind, repr(params), n_draws, oseed, mode))
         rep.count("oracle runs")
         rep.count("oracle draws requested as " + mode)
@@ -387,7 +439,9 @@ def run(seed, tier, replay=None):
                         input=dict(cls=kind, params=repr(params), N=n_draws, generator_seed=oseed, reason=why, draws=mode),
                         expected=eps + acc, observed=dist if dist > eps + acc else pm,
                         call={"q": "QuadraticDistribution.sample", "n": "NoisyQuadraticDistribution.sample",
-                              "e": "EmpiricalDistribution.sample"}[kind])
+                              "e": "EmpiricalDistribution.sample",
+                              "ea": "ys, ws, statements = params; ys = np.array(ys); ws = None if ws is None else np.array(ws); d = EmpiricalDistribution(ys, "
+                                    "ws=ws); exec(statements)  # the caller modifies its own arrays in place; then d.sample(...) against d.cdf"}[kind])
         return ok
 
     n_or = 4000 if tier == "quick" else 200000
@@ -403,6 +457,10 @@ def run(seed, tier, replay=None):
         run_oracle("n", (a, b, c, o, convex), n_or, "routine", mode=MODES[(it + 1) % 4])
         ys, ws = gen_emp(rng)
         run_oracle("e", (ys, ws), n_or, "routine", mode=MODES[(it + 2) % 4])     # samples with +-inf atoms included
+        ys, ws = gen_emp(rng_m)
+        st_a, st_w = np.array(ys, dtype=float), None if ws is None else np.array(ws, dtype=float)
+        stmts = [G.caller_mutation(rng_m, st_a, st_w) for _ in range(rng_m.choice([1, 1, 2]))]
+        run_oracle("ea", (ys, ws, stmts), n_or, "routine: the caller modifies the arrays it built the distribution from", mode=MODES[(it + 3) % 4])
     # every scale: the same family at tiny and huge absolute scales (absolute thresholds on o or b-a show only there), and a = b with tiny o
     for _ in range(3 if replay is None else 0):
         c, convex = rng.randint(1, 10), rng.random() < 0.5
@@ -413,7 +471,15 @@ def run(seed, tier, replay=None):
     if replay is None:
         a0 = rng.choice([0.0, 1.0, -2.5])
         run_oracle("n", (a0, a0, rng.randint(1, 10), 10.0 ** rng.uniform(-9, -6), rng.random() < 0.5), n_or, "routine: a = b with tiny noise")
+    if replay is None and tier != "quick":
+        # the noiseless density of c = 1 is unbounded at one end point, so noise of relative size s moves ~0.41 sqrt(s) of the mass across it:
+        # the one place where a noise ratio of 1e-6 .. 1e-3 is visible in the distribution function -- at N >= 1e6 (radius 0.0038)
+        for _ in range(4):
+            w = 10.0 ** rng_m.uniform(-3, 3)
+            a_ = w * rng_m.choice([0.0, -1.0, 2.5])
+            run_oracle("n", (a_, a_ + w, 1, 10.0 ** rng_m.uniform(-6, -3) * w, rng_m.random() < 0.5), 1_000_000, "routine: c = 1, noise ratio in [1e-6, 1e-3]")
     seen = set()
+    unresolved = []    # noisy settings whose deterministic tie broke and which every oracle pass so far accepted
     for kind, params in suspects:
         key = repr((kind, params))
         if key in seen or len(seen) >= 10:
@@ -440,6 +506,52 @@ def run(seed, tier, replay=None):
                     if found:
                         break
                     found = not run_oracle("n", (a_, a_, c_, o2, cv_), 20000, "a = b image of a setting whose deterministic tie broke")
+            ok_all = not found
+        if ok_all and k2 == "n":
+            unresolved.append(params)
+
+    # failing-input search, third stage (escalation; at most 3 settings, only when a tie broke and nothing above found a failing input):
+    # the draw differs from "quadratic part of uniform + normal(0, o)" at (a, b, c, o) but 200 000 draws (radius 0.0084) cannot tell.  Go to
+    # where the difference is most amplified -- the sibling with c = 1 (unbounded density at an end point: a change of the noise of relative
+    # size s moves ~sqrt(s) of the mass, against ~s for c >= 2), at the largest noise ratio o/(b-a) at which the tie is still broken (scan
+    # upwards from the suspect's ratio with the cheap deterministic test, then bisect) -- and ask the oracle with N = 4 000 000 draws
+    # (radius 0.0019); then the suspect's own setting at that N.
+    def tie_broken(a, b, c, o, convex):
+        g = np.random.default_rng(20240229)
+        h = clone(g)
+        x = NQ(a, b, c, o, convex=convex).sample(16, generator=g)
+        u = h.uniform(0., 1., size=16)
+        z = h.normal(0, o, size=16)
+        with np.errstate(all="ignore"):
+            quad = a + (b - a) * u ** (2 / c) if convex else b - (b - a) * (1 - u) ** (2 / c)
+        return not (same_state(g, h) and np.array_equal(x, quad + z))
+
+    unresolved.sort(key=lambda p_: (p_[2] != 1, -(p_[3] / (p_[1] - p_[0]) if p_[1] > p_[0] else 0.0)))
+    found = False
+    for a_, b_, c_, o_, cv_ in (unresolved[:3] if not rep.violations else []):      # a failing input has been found already: nothing to search for
+        if found:
+            break
+        w_ = b_ - a_
+        if w_ > 0:
+            r_lo = max(o_ / w_, 1e-9)
+            if tie_broken(a_, b_, 1, r_lo * w_, cv_):
+                r_hi = r_lo
+                while r_hi < 4.0 and tie_broken(a_, b_, 1, 2 * r_hi * w_, cv_):
+                    r_hi *= 2
+                r_lo, r_hi = r_hi, 2 * r_hi           # broken at r_lo; not broken (or out of range) at r_hi
+                for _ in range(6):
+                    mid_ = math.sqrt(r_lo * r_hi)
+                    if tie_broken(a_, b_, 1, mid_ * w_, cv_):
+                        r_lo = mid_
+                    else:
+                        r_hi = mid_
+                rep.count("escalation: c = 1 sibling at the largest noise ratio with a broken tie, N = 4e6")
+                found = not run_oracle("n", (a_, b_, 1, r_lo * w_, cv_), 4_000_000,
+                                       f"escalation: the deterministic tie broke at (a, b, c, o, convex) = {(a_, b_, c_, o_, cv_)!r}; this is its c = 1 sibling at the "
+                                       "largest noise ratio o/(b-a) at which the tie is still broken")
+        if not found:
+            rep.count("escalation: the setting whose tie broke, N = 4e6")
+            found = not run_oracle("n", (a_, b_, c_, o_, cv_), 4_000_000, "escalation: the deterministic tie to the model broke for this setting")
 
     if np.random.get_state()[1].tobytes() != legacy0:
         rep.violate(what="sample() changed numpy's legacy global random state", input={}, call="sample")
@@ -449,7 +561,13 @@ def run(seed, tier, replay=None):
              "{0,1e-3,.1,1,10}x(b-a); samples with ties, ±inf, zero/tiny weights, ws=None) x size in {None,k,(k1,k2),0} x a "
              "fresh generator seed; a case is one sampled element compared with the model (Float model within "
              "16 x jitter spread + 8 ulp; exact-rational model exactly), plus shape/support/generator-state checks per call "
-             "and the DKW oracle per setting; distinct = distinct (setting, seed, size, index).",
+             "and the DKW oracle per setting; distinct = distinct (setting, seed, size, index). Empirical class, the caller's arrays (own "
+             "generator): about half of the settings are built from float64 ndarrays that the caller modifies in place (sort/reverse/negate/"
+             "refill/one entry; permute/zero/renormalise weights) after construction and before every sample() call -- atoms, exact model and "
+             "oracle use the sample given at construction (oracle kind 'ea': the statements are part of the setting). Failing-input search "
+             "for a noisy setting whose tie broke: 200 000 draws + 3 x 20 000 in other request shapes, scale images, then (<= 3 settings) the "
+             "c = 1 sibling at the largest noise ratio with a broken tie and the setting itself at N = 4 000 000. Thorough tier: c = 1 with "
+             "noise ratio 1e-6..1e-3 at N = 1 000 000.",
         extra=dict(driver_lines=drv.lines))
 
 
